@@ -54,3 +54,19 @@ def digits(idx: int, base: int, n: int) -> list[int]:
         out.append(idx % base)
         idx //= base
     return out
+
+
+def fresh(x):
+    """an object equal to x (and hashing alike) but, where Python allows, not identical to it: callers build labels at
+    different places, so a graph's keys, its neighbour entries and the source/goal arguments are rarely one object"""
+    if isinstance(x, tuple) and x:
+        return tuple([fresh(e) for e in x])
+    if isinstance(x, str) and len(x) > 1:
+        return "".join(list(x))
+    if isinstance(x, bool) or x is None:
+        return x
+    if isinstance(x, int) and abs(x) > 256:
+        return int(str(x))
+    if isinstance(x, float):
+        return float(repr(x))
+    return x
